@@ -463,6 +463,7 @@ func (w *World) GenerateSpecs() error {
 		body.WriteString("func spec_ref(x interface{}) {}\n")
 		body.WriteString("func spec_fresh(x interface{}) bool { return x == nil }\n")
 		body.WriteString("func spec_allocated(x interface{}) bool { return x == nil }\n")
+		body.WriteString("func spec_sameref(x, y interface{}) bool { return x == y }\n")
 		txt := body.String()
 		var hdr strings.Builder
 		hdr.WriteString("//go:build verif\n\n// Code generated by govc from " + contractFileName + "; overlay only, never written to /repo.\n\npackage " + pkgName + "\n\n")
